@@ -2,6 +2,7 @@
 // library's Serializer/Deserializer over any reader/writer kind. All property logic is written
 // against this interface so that it is compiled once, not per type.
 #pragma once
+#include <memory>
 #include "io.h"
 #include "meta.h"
 
@@ -39,6 +40,11 @@ struct TypeOps {
   }
 };
 
+// Which of the three Serializer / Deserializer forms the buffer kinds go through: 0 Serializer<W*>, 1
+// Serializer<std::unique_ptr<W>>, 2 Serializer<W> (the writer state is copied in and back out). Set by a property
+// body from its tape; 0 otherwise.
+inline int& serializer_form() { static int f = 0; return f; }
+
 template <typename T>
 struct ObjOf : Obj {
   using M = MetaOf<T>;
@@ -56,8 +62,19 @@ struct ObjOf : Obj {
     }
     if constexpr (!M::kHandle) {
       switch (w.kind) {
-        case W_Buf: return st(nop::Serializer<nop::BufferWriter*>(&w.buf).Write(obj));
-        case W_Ped: return st(nop::Serializer<nop::PedanticBufferWriter*>(&w.ped).Write(obj));
+        case W_Buf:
+          // the three forms of Serializer (pointer, owning unique_ptr, by value) over the same writer state
+          switch (serializer_form()) {
+            case 1: { nop::Serializer<std::unique_ptr<nop::BufferWriter>> s{std::make_unique<nop::BufferWriter>(w.buf)}; int r = st(s.Write(obj)); w.buf = s.writer(); return r; }
+            case 2: { nop::Serializer<nop::BufferWriter> s{w.buf}; int r = st(s.Write(obj)); w.buf = s.writer(); return r; }
+            default: return st(nop::Serializer<nop::BufferWriter*>(&w.buf).Write(obj));
+          }
+        case W_Ped:
+          switch (serializer_form()) {
+            case 1: { nop::Serializer<std::unique_ptr<nop::PedanticBufferWriter>> s{std::make_unique<nop::PedanticBufferWriter>(w.ped)}; int r = st(s.Write(obj)); w.ped = s.writer(); return r; }
+            case 2: { nop::Serializer<nop::PedanticBufferWriter> s{w.ped}; int r = st(s.Write(obj)); w.ped = s.writer(); return r; }
+            default: return st(nop::Serializer<nop::PedanticBufferWriter*>(&w.ped).Write(obj));
+          }
         case W_Str: return st(nop::Serializer<SStreamWriter*>(w.str.get()).Write(obj));
         case W_BBuf: return st(nop::Serializer<nop::BoundedWriter<nop::BufferWriter>*>(&w.bbuf).Write(obj));
         case W_BPed: return st(nop::Serializer<nop::BoundedWriter<nop::PedanticBufferWriter>*>(&w.bped).Write(obj));
@@ -87,8 +104,18 @@ struct ObjOf : Obj {
     }
     if constexpr (!M::kHandle) {
       switch (r.kind) {
-        case R_Buf: return st(nop::Deserializer<nop::BufferReader*>(&r.buf).Read(obj));
-        case R_Ped: return st(nop::Deserializer<nop::PedanticBufferReader*>(&r.ped).Read(obj));
+        case R_Buf:
+          switch (serializer_form()) {
+            case 1: { nop::Deserializer<std::unique_ptr<nop::BufferReader>> d{std::make_unique<nop::BufferReader>(r.buf)}; int x = st(d.Read(obj)); r.buf = d.reader(); return x; }
+            case 2: { nop::Deserializer<nop::BufferReader> d{r.buf}; int x = st(d.Read(obj)); r.buf = d.reader(); return x; }
+            default: return st(nop::Deserializer<nop::BufferReader*>(&r.buf).Read(obj));
+          }
+        case R_Ped:
+          switch (serializer_form()) {
+            case 1: { nop::Deserializer<std::unique_ptr<nop::PedanticBufferReader>> d{std::make_unique<nop::PedanticBufferReader>(r.ped)}; int x = st(d.Read(obj)); r.ped = d.reader(); return x; }
+            case 2: { nop::Deserializer<nop::PedanticBufferReader> d{r.ped}; int x = st(d.Read(obj)); r.ped = d.reader(); return x; }
+            default: return st(nop::Deserializer<nop::PedanticBufferReader*>(&r.ped).Read(obj));
+          }
         case R_Str: return st(nop::Deserializer<SStreamReader*>(r.str.get()).Read(obj));
         case R_FStr: return st(nop::Deserializer<FStreamReader*>(r.fstr.get()).Read(obj));
         case R_BBuf: return st(nop::Deserializer<nop::BoundedReader<nop::BufferReader>*>(&r.bbuf).Read(obj));
